@@ -23,12 +23,14 @@ Definition newton_event (p : T) : option bool :=
   else if neqb (fp p) nzero then Some false
   else if nltb (nabs (nsub (newton_next p) p)) tol then Some true else None.
 
-Definition halley_next (p : T) : T :=
-  let ns := ndiv (f p) (fp p) in
-  nsub p (ndiv ns (nsub none_ (ndiv (nmul (nmul nhalf ns) (fp2 p)) (fp p)))).
+Definition halley_den (p : T) : T :=
+  nsub none_ (ndiv (nmul (nmul nhalf (ndiv (f p) (fp p))) (fp2 p)) (fp p)).
+Definition halley_next (p : T) : T := nsub p (ndiv (ndiv (f p) (fp p)) (halley_den p)).
+(* Some false also covers the ZeroDivisionError of the Halley correction (denominator exactly 0) *)
 Definition halley_event (p : T) : option bool :=
   if neqb (f p) nzero then Some true
   else if neqb (fp p) nzero then Some false
+  else if neqb (halley_den p) nzero then Some false
   else if nltb (nabs (nsub (halley_next p) p)) tol then Some true else None.
 
 (* secant state: (p0, q0, p1, q1) *)
@@ -113,8 +115,10 @@ Qed.
 
 (* ---- halley ---- *)
 Lemma halley_loop_flag : forall fuel itr p fc,
-  let '(_, _, _, cv) := halley_loop f fp fp2 tol fuel itr p fc in
-  cv = true <-> fires halley_event halley_next fuel p.
+  match halley_loop f fp fp2 tol fuel itr p fc with
+  | Some (_, _, _, cv) => cv = true <-> fires halley_event halley_next fuel p
+  | None => ~ fires halley_event halley_next fuel p
+  end.
 Proof.
   induction fuel as [|k IH]; intros itr p fc; simpl.
   - split; [discriminate|]. intros H. destruct (not_fires_0 _ _ _ H).
@@ -123,28 +127,36 @@ Proof.
     destruct (neqb (fp p) nzero) eqn:E2.
     { split; [discriminate|]. intros H. exfalso. revert H. apply not_fires_stall.
       unfold halley_event. rewrite E1, E2. reflexivity. }
+    unfold chkdiv. fold (halley_den p).
+    destruct (neqb (halley_den p) nzero) eqn:E4.
+    { apply not_fires_stall. unfold halley_event. rewrite E1, E2, E4. reflexivity. }
     fold (halley_next p).
     destruct (nltb (nabs (nsub (halley_next p) p)) tol) eqn:E3.
-    { split; [intros _|reflexivity]. apply fires_now. unfold halley_event. rewrite E1, E2, E3. reflexivity. }
+    { split; [intros _|reflexivity]. apply fires_now. unfold halley_event. rewrite E1, E2, E4, E3. reflexivity. }
     specialize (IH (itr + 1)%Z (halley_next p) (fc + 2)%Z).
-    destruct (halley_loop f fp fp2 tol k (itr + 1) (halley_next p) (fc + 2)) as [[[r c] i] cv].
-    rewrite IH. symmetry. apply fires_step. unfold halley_event. rewrite E1, E2, E3. reflexivity.
+    assert (EV : halley_event p = None) by (unfold halley_event; rewrite E1, E2, E4, E3; reflexivity).
+    destruct (halley_loop f fp fp2 tol k (itr + 1) (halley_next p) (fc + 2)) as [[[[r c] i] cv]|].
+    + rewrite IH. symmetry. apply fires_step. exact EV.
+    + intros H. apply IH. apply (fires_step _ _ _ _ EV). exact H.
 Qed.
 
 Lemma halley_loop_quiet : forall fuel itr p fc,
   quiet halley_event halley_next fuel p ->
-  halley_loop f fp fp2 tol fuel itr p fc = (iter halley_next fuel p, (fc + 2 * Z.of_nat fuel)%Z, (itr + Z.of_nat fuel)%Z, false).
+  halley_loop f fp fp2 tol fuel itr p fc =
+  Some (iter halley_next fuel p, (fc + 2 * Z.of_nat fuel)%Z, (itr + Z.of_nat fuel)%Z, false).
 Proof.
   induction fuel as [|k IH]; intros itr p fc Q.
-  - simpl. tup4.
+  - simpl. f_equal. tup4.
   - pose proof (Q O ltac:(lia)) as Q0. simpl in Q0. unfold halley_event in Q0.
     cbn [halley_loop].
     destruct (neqb (f p) nzero); [discriminate|].
     destruct (neqb (fp p) nzero); [discriminate|].
+    unfold chkdiv. fold (halley_den p).
+    destruct (neqb (halley_den p) nzero); [discriminate|].
     fold (halley_next p).
     destruct (nltb (nabs (nsub (halley_next p) p)) tol); [discriminate|].
     rewrite IH.
-    + cbn [iter]. tup4.
+    + cbn [iter]. f_equal. tup4.
     + intros j Hj. apply (Q (S j)). lia.
 Qed.
 
@@ -189,7 +201,8 @@ Definition flag_contract (o : outcome T) (disp : bool) (fired : Prop) : Prop :=
   (fired -> exists r fc it, o = Res r fc it true) /\
   (forall r fc it, o = Res r fc it false -> disp = false /\ ~ fired) /\
   (o = ErrNoConv -> disp = true /\ ~ fired) /\
-  (~ fired -> o = ErrNoConv \/ exists r fc it, o = Res r fc it false) /\
+  (o = ErrZeroDiv -> ~ fired) /\
+  (~ fired -> o = ErrNoConv \/ o = ErrZeroDiv \/ exists r fc it, o = Res r fc it false) /\
   o <> ErrSign /\ o <> ErrArg.
 
 Lemma finish_contract (disp : bool) (r : T) (fc it : Z) (cv : bool) (fired : Prop) :
@@ -199,16 +212,10 @@ Proof.
   destruct cv.
   - assert (F : fired) by (apply H; reflexivity).
     replace (disp && negb true) with false by (destruct disp; reflexivity).
-    repeat split.
+    repeat split; try discriminate; try (intros ? ? ? X; inversion X).
     + intros; exact F.
     + intros _. do 3 eexists. reflexivity.
-    + inversion H0.
-    + inversion H0.
-    + discriminate.
-    + discriminate.
     + intros X. destruct (X F).
-    + discriminate.
-    + discriminate.
   - assert (NF : ~ fired) by (intro X; apply H in X; discriminate).
     destruct disp; simpl.
     + repeat split; try discriminate; try exact NF.
@@ -216,7 +223,20 @@ Proof.
       * intros _. left. reflexivity.
     + repeat split; try discriminate; try exact NF.
       * intros X. destruct (NF X).
-      * intros _. right. do 3 eexists. reflexivity.
+      * intros _. right. right. do 3 eexists. reflexivity.
+Qed.
+
+Lemma finish_opt_contract (disp : bool) (o : option (T * Z * Z * bool)) (fired : Prop) :
+  match o with Some (_, _, _, cv) => cv = true <-> fired | None => ~ fired end ->
+  flag_contract (finish_opt disp o) disp fired.
+Proof.
+  destruct o as [[[[r c] i] cv]|]; simpl.
+  - apply finish_contract.
+  - intros NF. unfold flag_contract.
+    split; [|split; [|split; [|split; [|split; [|split; [|split]]]]]]; try discriminate.
+    + intros X. destruct (NF X).
+    + intros _. exact NF.
+    + intros _. right. left. reflexivity.
 Qed.
 
 Theorem newton_flag : forall x0 maxiter disp,
@@ -238,9 +258,7 @@ Theorem halley_flag : forall x0 maxiter disp,
 Proof.
   intros x0 maxiter disp Ht Hm. unfold newton_halley. rewrite Ht.
   destruct (maxiter <? 1)%Z eqn:E; [lia|].
-  pose proof (halley_loop_flag (Z.to_nat maxiter) 0%Z (nmul none_ x0) 0%Z) as H.
-  destruct (halley_loop f fp fp2 tol (Z.to_nat maxiter) 0 (nmul none_ x0) 0) as [[[r c] i] cv].
-  apply finish_contract. exact H.
+  apply finish_opt_contract. apply halley_loop_flag.
 Qed.
 
 Definition secant_start (c4 x0 : T) : T * T * T * T :=
@@ -286,7 +304,7 @@ Theorem halley_exhaust : forall x0 maxiter disp,
 Proof.
   intros x0 maxiter disp Ht Hm Q. unfold newton_halley. rewrite Ht.
   destruct (maxiter <? 1)%Z eqn:E; [lia|].
-  rewrite halley_loop_quiet by exact Q. unfold finish.
+  rewrite halley_loop_quiet by exact Q. unfold finish_opt, finish.
   destruct disp; cbn [andb negb]; [reflexivity|]. f_equal; lia.
 Qed.
 
